@@ -67,13 +67,25 @@ DownMatchD(r3, r2, D) ==
 
 DownMatch(r3, r2) == DownMatchD(r3, r2, {})
 
+\* replies with a random choice (SRANDMEMBER, HRANDFIELD, SPOP, RANDOMKEY ...) are recorded from two executions
+\* and differ in content: only the shape is compared - nesting, lengths, and the flattening of a list of
+\* field / value pairs into an array of twice the length
+IsPairList(r) == r.t = "arr" /\ Len(r.a) > 0 /\ \A j \in 1..Len(r.a) : r.a[j].t = "arr" /\ Len(r.a[j].a) = 2
+ShapeMatch(r3, r2) ==
+    CASE r3.t = "nil" -> r2.t = "nil"
+      [] r3.t \in {"bulk", "simple", "int", "err"} -> r2.t = r3.t
+      [] IsPairList(r3) -> r2.t = "arr" /\ Len(r2.a) = 2 * Len(r3.a) /\ \A j \in 1..Len(r2.a) : r2.a[j].t = "bulk"
+      [] r3.t \in {"arr", "set", "map", "push"} -> r2.t = "arr" /\ Len(r2.a) = Len(r3.a)
+      [] OTHER -> FALSE
+Judge(p, D) == IF p.rand = 1 THEN ShapeMatch(p.r3, p.r2) ELSE DownMatchD(p.r3, p.r2, D)
+
 \* the canonical conversion is idempotent on RESP2 trees: a RESP2 reply only matches itself
-PairOk(p) == Resp2Only(p.r2) /\ DownMatch(p.r3, p.r2)
+PairOk(p) == Resp2Only(p.r2) /\ Judge(p, {})
 BadR2 == {n \in 1..Len(P) : ~Resp2Only(P[n].r2)}
-BadDown == {n \in 1..Len(P) : Resp2Only(P[n].r2) /\ ~DownMatch(P[n].r3, P[n].r2)}
+BadDown == {n \in 1..Len(P) : Resp2Only(P[n].r2) /\ ~Judge(P[n], {})}
 \* pairs that only a listed deviation explains, per deviation
-KnownBy(d) == {n \in BadDown : DownMatchD(P[n].r3, P[n].r2, {d})}
-StillBad == {n \in BadDown : ~DownMatchD(P[n].r3, P[n].r2, OpenDev)}
+KnownBy(d) == {n \in BadDown : Judge(P[n], {d})}
+StillBad == {n \in BadDown : ~Judge(P[n], OpenDev)}
 ASSUME PrintT(<<"BADR2", BadR2>>)
 ASSUME PrintT(<<"BADDOWN", StillBad>>)
 ASSUME \A d \in OpenDev : PrintT(<<"KNOWN", d, KnownBy(d)>>)
